@@ -37,6 +37,7 @@ func gen(g *kernel.Rng, seed uint64, tier string) *kernel.Plan {
 	for _, k := range []string{"wsegC", "wsegS"} {
 		p.Cfg[k] = int64([]int{simnet.SegWhole, simnet.SegChunky, simnet.SegWhole, simnet.SegTape}[g.Intn(4)])
 	}
+	p.Cfg["rlimit"] = int64(g.Pick(2, 1)) // receivers set a read limit no message of the session reaches
 	n := g.Range(1, 14)
 	huge := g.Bool(0.01)
 	budget := int64(300000)
@@ -89,6 +90,8 @@ func gen(g *kernel.Rng, seed uint64, tier string) *kernel.Plan {
 		}
 		if g.Bool(0.08) {
 			readMode = 3 // the receiver abandons the message after a prefix (NextReader discards the rest)
+		} else if api != 5 && g.Bool(0.1) {
+			readMode = 4 // NextReader, then exactly the payload's length with io.ReadFull (the end is never read)
 		}
 		p.Ops = append(p.Ops, kernel.Op{K: "m", T: e, N: []int64{int64(g.Range(1, 2)), sz, int64(g.U32()), api, int64(g.U32()), readMode, int64(g.Pick(1, 4)), int64(g.Range(-2, 9))}})
 	}
@@ -116,6 +119,7 @@ type endState struct {
 	readErr error
 	jsonBad string
 	abandoned int
+	exact     int
 }
 
 func payloadOf(o kernel.Op) []byte {
@@ -174,7 +178,9 @@ func (c *chunkReader) Read(p []byte) (int, error) {
 func run(p *kernel.Plan) (res *kernel.Result) {
 	res = &kernel.Result{}
 	for _, o := range p.Ops {
-		if o.K != "m" || len(o.N) < 8 || o.N[1] < 0 || o.N[1] > 8<<20 || (o.N[0] != 1 && o.N[0] != 2) || o.T < 0 || o.T > 1 {
+		if o.K != "m" || len(o.N) < 8 || o.N[1] < 0 || o.N[1] > 8<<20 || (o.N[0] != 1 && o.N[0] != 2) || o.T < 0 || o.T > 1 ||
+			o.N[3] < 0 || o.N[3] > 5 || o.N[5] < 0 || o.N[5] > 4 || (o.N[5] == 2 && o.N[3] != 5) || (o.N[5] == 4 && o.N[3] == 5) {
+			// (ReadJSON is for messages written by WriteJSON; the exact-length read needs the plain payload)
 			res.Invalid = true
 			return
 		}
@@ -227,10 +233,17 @@ func run(p *kernel.Plan) (res *kernel.Result) {
 				lvl = p.C("slevel")
 			}
 			c.SetCompressionLevel(int(lvl))
+			var mine []kernel.Op
 			for _, op := range p.Ops {
-				if op.T != e {
-					continue
+				if op.T == e {
+					mine = append(mine, op)
 				}
+			}
+			for oi, op := range mine {
+				// "NextWriter closes the previous writer if the application has not
+				// already done so": some writers are left open when the next message
+				// goes through NextWriter (directly or inside WriteMessage/WriteJSON)
+				leaveOpen := oi+1 < len(mine) && mine[oi+1].N[3] != 4 && op.N[4]%5 == 0
 				typ := int(op.N[0])
 				if op.N[3] == 4 {
 					op.N = append([]int64(nil), op.N...)
@@ -272,8 +285,10 @@ func run(p *kernel.Plan) (res *kernel.Result) {
 					case 3:
 						_, err = io.Copy(w, &chunkReader{b: data, tape: tape})
 					}
-					if err == nil {
+					if err == nil && !leaveOpen {
 						err = w.Close()
+					} else if err == nil {
+						res.Stat("writers_left_open_for_the_next_message_to_close", 1)
 					}
 				case 4:
 					pm := prepared[fmt.Sprintf("%d/%d/%d", op.N[0], op.N[1], op.N[2])]
@@ -318,10 +333,19 @@ func run(p *kernel.Plan) (res *kernel.Result) {
 			c := st.conn
 			// read modes follow the peer's ops in order
 			var modes []kernel.Op
+			maxLen := 0
 			for _, op := range p.Ops {
 				if op.T == 1-e {
 					modes = append(modes, op)
+					if n := len(payloadOf(op)); n > maxLen {
+						maxLen = n
+					}
 				}
+			}
+			if p.C("rlimit") != 0 {
+				// no message of this session comes near it (deflate may expand
+				// incompressible data by a few bytes per block)
+				c.SetReadLimit(int64(maxLen + maxLen/8 + 1024))
 			}
 			for i := 0; ; i++ {
 				mode := int64(0)
@@ -363,6 +387,19 @@ func run(p *kernel.Plan) (res *kernel.Result) {
 						}
 					}
 					st.got = append(st.got, got{typ, buf, false})
+				case 4: // NextReader, exactly the expected number of bytes, never the end
+					typ, r, err := c.NextReader()
+					if err != nil {
+						st.readErr = err
+						return
+					}
+					buf := make([]byte, len(payloadOf(op)))
+					if _, err := io.ReadFull(r, buf); err != nil {
+						st.readErr = err
+						return
+					}
+					st.got = append(st.got, got{typ, buf, false})
+					st.exact++
 				case 3: // NextReader, a prefix, then on to the next message
 					typ, r, err := c.NextReader()
 					if err != nil {
@@ -562,6 +599,16 @@ func clip(b []byte) string {
 
 var Check = &kernel.Check{
 	ID: "C13", Gen: gen, Run: run, ResetPools: true,
+	Probes: func() map[string]*kernel.Plan {
+		return map[string]*kernel.Plan{
+			// fixed: the skipped continuation frame of an abandoned fragmented message
+			// was charged to the next message's read limit
+			"abandoned-fragmented": {Property: "C13", Cfg: map[string]int64{"clevel": 5, "slevel": 2, "rlimit": 1}, Ops: []kernel.Op{
+				{K: "m", N: []int64{1, 8188, 0, 0, 0, 3, 0, 0}},
+				{K: "m", N: []int64{1, 8188, 0, 0, 0, 0, 0, 0}},
+			}},
+		}
+	},
 	Simpler: map[string][]int64{"crb": {0, 4096}, "cwb": {0, 4096}, "srb": {0, 4096}, "swb": {0, 4096}, "comp": {0}, "compoffer": {0}, "sub": {0}, "rsegC": {0}, "rsegS": {0}, "wsegC": {0}, "wsegS": {0}},
 }
 
